@@ -396,6 +396,13 @@ class Cache(Filter[Iterable[Any], Iterable[Any]]):
     def protected(self) -> bool:
         return self._protected
 
+    def __getstate__(self) -> dict:
+        #a read that was abandoned part-way leaves its iterator behind and an iterator can't be pickled (or
+        #deep copied). The copy forgets the unfinished cache and starts over. A finished cache goes with the copy.
+        state = self.__dict__.copy()
+        if state['_iter'] is not None: state['_iter'],state['_cache'] = None,None
+        return state
+
     def filter(self, items: Iterable[Any]) -> Iterable[Any]:
         n_slice = self._n_slice
 
